@@ -580,7 +580,7 @@ def main(tier):
                 if not cooked or quick:
                     # compiling templates spend most lines inside parse under the lock: sample, but always take the
                     # lines around every shared access
-                    budget = 160 if quick else 100000
+                    budget = 110 if quick else 100000
                     if len(ks) > budget:
                         near = {k + d for k in acc for d in (-2, -1, 0, 1, 2, 3) if 1 <= k + d <= total}
                         ks = near | set(rng.sample(sorted(ks), budget))
@@ -588,13 +588,13 @@ def main(tier):
                 for k in sorted(ks):
                     b_jobs.append((name, n, cooked, 'segs', [(f, k)] + [(j, 10 ** 9) for j in other], watch, solo))
             # two preemptions and random priorities
-            for _ in range(40 if quick else 1500):
+            for _ in range(30 if quick else 1500):
                 f = rng.randrange(n)
                 g = 1 - f
                 k1 = rng.randint(1, counts[f][0])
                 k2 = rng.randint(1, counts[g][0])
                 b_jobs.append((name, n, cooked, 'segs', [(f, k1), (g, k2), (f, 10 ** 9)], watch, solo))
-            for _ in range(30 if quick else 1500):
+            for _ in range(20 if quick else 1500):
                 b_jobs.append((name, n, cooked, 'pct', (rng.randrange(10 ** 9), rng.randint(1, 4), sum(c[0] for c in counts)), watch, solo))
         # three threads, random priorities
         solo3 = solo_results(name, 3)
